@@ -389,7 +389,7 @@ def to_vector(c):
         return c
     if hasattr(c, vector):
         # already labelled: only make sure it has unit length
-        norm = np.sqrt((c**2).sum(vector))
+        norm = c.reduce(np.hypot.reduce, dim=vector)
         if np.all(norm.values == 1):
             return c
         normalized = c / norm
@@ -404,8 +404,9 @@ def to_vector(c):
     c = np.array(c)
     if c.shape == (2,):
         c = np.append(c, 0)
-    # normalize
-    c = c/np.sqrt(np.sum(c**2))
+    # normalize (hypot: no overflow/underflow of the squares and no integer
+    # wrap-around, whatever the magnitude of the components)
+    c = c/np.hypot.reduce(c)
 
     return xr.DataArray(c, coords={vector: ['x', 'y', 'z']}, dims=vector)
 
